@@ -246,8 +246,11 @@ def run(ctx):
     ctx.need(nlabel >= 1, "constructions of TokenKind::Label in the lexer (found %d)" % nlabel)
     ctx.finish_rule()
 
-    ctx.rule("C18.R4", "closed set of readers of the flag", floor=5)
+    ctx.rule("C18.R4", "closed set of readers of the flag", floor=3)
     callers = ctx.cg.callers(FLAG)
+    # the three that carry the gate: the lexer, the 0xD handler, the debugger's step-out arm (the two helpers of the handler only assert it)
+    ctx.need("lace::runtime::RunState::stack" in callers and "lace::debugger::Debugger::run_command" in callers
+             and (LEX in callers or getattr(ctx, "_c18_gate_host", None) in callers), "the three gate sites among the readers of the flag")
     for c in callers:
         ctx.instance(1)
         ok = c in READERS or c == getattr(ctx, "_c18_gate_host", None)
